@@ -214,6 +214,8 @@ fn add_sessions(a: &mut SessionsRunStats, s: &SessionsRunStats) {
     a.cross_format_pairs += s.cross_format_pairs;
     a.long_sessions += s.long_sessions;
     a.soak_runs += s.soak_runs;
+    a.other_calls += s.other_calls;
+    a.calls_temp_format += s.calls_temp_format;
     a.coop_runs += s.coop_runs;
     a.coop_threads += s.coop_threads;
     a.coop_ops += s.coop_ops;
@@ -451,6 +453,13 @@ fn run_segment(prop: &str, seed: u64, from: u64, to: u64, per_run: usize, only_l
     let kind = SimKind::of_prop(prop).unwrap_or(SimKind::Sessions);
     let mut asked = 0;
     let mut runs = 0;
+    if kind == SimKind::Terms {
+        // the first thing this fresh process does with the library
+        let mut ch = Choices::generate(run_seed(seed, 66, from));
+        if let Some(v) = sim_terms::cold_start(&mut ch).into_iter().find(|v| v.prop == prop) {
+            return Ok((0, 0, Some((from, format!("[{}] {}", v.kind, v.message)))));
+        }
+    }
     for i in from..=to {
         let rs = run_seed(seed, kind.id(), i);
         let mut ch = Choices::generate(rs);
@@ -988,10 +997,11 @@ fn run_batch(opts: &Opts) -> Result<u8, String> {
     // (also the first resort when the threaded batch saw something that does not replay: state that
     //  accumulates in the PROCESS shows up again in a single-threaded process history, and there it
     //  is a function of the run sequence)
-    if (kind == SimKind::Sessions || unreproduced > 0) && found.is_none() && hist_found.is_none() && !opts.dump_digests {
+    if found.is_none() && hist_found.is_none() && !opts.dump_digests {
         let (n_seg, seg_len) = match (opts.segments, opts.tier.as_str(), kind) {
             (Some(n), _, _) => (n, 80),
-            (None, _, SimKind::Terms) => (opts.workers as u64 * 2, 150),
+            (None, "quick", SimKind::Terms) => (opts.workers as u64 * 4, if unreproduced > 0 { 150 } else { 12 }),
+            (None, _, SimKind::Terms) => (opts.workers as u64 * 32, if unreproduced > 0 { 150 } else { 12 }),
             (None, "quick", _) => (opts.workers as u64 * 2, 80),
             (None, _, _) => (opts.workers as u64 * 24, 120),
         };
@@ -1197,6 +1207,14 @@ fn evidence_json(opts: &Opts, kind: SimKind, prop: &'static str, agg: &Agg, wall
                 "concurrent_caller_phases",
                 J::obj(vec![("runs", J::u(agg.t_coop[0])), ("yield_points_passed_in_hash_and_eq", J::u(agg.t_coop[1])), ("thread_switches_decided_by_the_scheduler", J::u(agg.t_coop[2])), ("stalled_runs_without_verdict", J::u(agg.t_coop[3]))]),
             ));
+            cov.push((
+                "process_histories",
+                J::obj(vec![
+                    ("fresh_single_threaded_processes", J::u(agg.restart_segments)),
+                    ("runs_in_them", J::u(agg.restart_runs)),
+                    ("each_starts_with", J::s("a cold start: one value of every constructor family built, hashed and stored in a drawn order as the first use of the library in that process")),
+                ]),
+            ));
             cov.push(("twin_pairs", J::u(agg.t_twin_pairs)));
             cov.push(("twin_pairs_with_different_layout", J::u(agg.t_twin_manifested)));
             cov.push(("unequal_pairs_checked", J::u(agg.t_unequal_pairs)));
@@ -1256,7 +1274,9 @@ fn evidence_json(opts: &Opts, kind: SimKind, prop: &'static str, agg: &Agg, wall
             cov.push(("session_inputs_after_dirty_state", J::u(s.dirty_items)));
             cov.push(("session_inputs_after_unfinished_predecessor", J::u(s.after_unfinished_items)));
             cov.push(("stateless_calls", J::Obj((0..8).map(|i| (ENTRY_NAMES[i].to_string(), J::u(s.calls[i]))).collect())));
+            cov.push(("other_library_calls_between_parses", J::u(s.other_calls)));
             cov.push(("calls_from_char_vector", J::u(s.calls_chars)));
+            cov.push(("calls_with_the_enum_format_held_by_value", J::u(s.calls_temp_format)));
             cov.push(("calls_on_fresh_lexical_instance", J::u(s.calls_lex_fresh)));
             cov.push(("simulator_alone_evaluations", J::u(s.alone_evals)));
             cov.push(("observations_cross_checked", J::u(s.observations)));
